@@ -161,7 +161,7 @@ package store
 //@   ensures [C06] log-kept: pubKept(st.nc)
 //@   ensures [C06] rebroadcast-batch-is-received-batch: forall i int :: old(pubN(st.nc)) <= i && i < pubN(st.nc) ==> batchOf(pubPts(st.nc, i), msg.Data) && (exists a string :: reachL(st.db, nodeOf(msg), a) && pubSubj(st.nc, i) == sprintf("up.%v.%v", a, nodeOf(msg)))
 //@   ensures [C06] accepted-reaches-every-live-ancestor: pubN(st.nc) > old(pubN(st.nc)) && !busFailed(st.nc) && !dbFailed(st.db.db) ==> (forall a string :: reachL(st.db, nodeOf(msg), a) ==> (exists i int :: old(pubN(st.nc)) <= i && i < pubN(st.nc) && pubSubj(st.nc, i) == sprintf("up.%v.%v", a, nodeOf(msg))))
-//@   assert [C06] accepted-is-rebroadcast: err == nil at "st.processPointsUpstream(nodeID, nodeID, points)"
+//@   assert [C04, C05, C06] accepted-is-rebroadcast: err == nil at "st.processPointsUpstream(nodeID, nodeID, points)"
 //@ func (*Store).handleEdgePoints
 //@   props C06, C05, C04
 //@   local st *store.Store#1
@@ -175,7 +175,7 @@ package store
 //@   ensures [C06] log-kept: pubKept(st.nc)
 //@   ensures [C06] rebroadcast-batch-is-received-batch: forall i int :: old(pubN(st.nc)) <= i && i < pubN(st.nc) ==> batchOf(pubPts(st.nc, i), msg.Data) && (exists a string :: reachA(st.db, nodeOf(msg), a) && pubSubj(st.nc, i) == sprintf("up.%v.%v.%v", a, nodeOf(msg), parentOf(msg)))
 //@   ensures [C06] accepted-reaches-every-ancestor: pubN(st.nc) > old(pubN(st.nc)) && !busFailed(st.nc) && !dbFailed(st.db.db) ==> (forall a string :: reachA(st.db, nodeOf(msg), a) ==> (exists i int :: old(pubN(st.nc)) <= i && i < pubN(st.nc) && pubSubj(st.nc, i) == sprintf("up.%v.%v.%v", a, nodeOf(msg), parentOf(msg))))
-//@   assert [C05, C06] only-accepted-is-rebroadcast: err == nil at "st.processEdgePointsUpstream(nodeID, nodeID, parentID, points)"
+//@   assert [C04, C05, C06] only-accepted-is-rebroadcast: err == nil at "st.processEdgePointsUpstream(nodeID, nodeID, parentID, points)"
 
 // ---- login (C09) --------------------------------------------------------------------------------------------
 // rootPath(db, x): x is connected to the root sentinel through edges without a set tombstone.
@@ -393,7 +393,7 @@ package store
 //@   ensures [C05] self-edge-refused: nodeID0 == parentID0 ==> res0 != nil
 //@   ensures [C05] nan-refused: (exists k int :: 0 <= k && k < len(points0) && isNaN(points0[k].Value)) ==> res0 != nil
 //@   assert [C05] root-tombstone-refused: !(nodeID == sdb.meta.RootID && (exists k int :: 0 <= k && k < len(points) && points[k].Type == "tombstone" && points[k].Value > 0.0)) at "sdb.writeLock.Lock()"
-//@   assert [C05] new-edge-has-node-type: nodeType != "" at "tx.Exec(`INSERT INTO edges(id, up, down, hash, type) VALUES (?, ?, ?, ?, ?)`, edge.ID, edge.Up, edge.Down, 0, edge.Type)"
+//@   assert [C05] new-edge-has-node-type: nodeType != "" && (exists k int :: 0 <= k && k < len(points) && points[k].Type == "nodeType" && points[k].Text == nodeType) at "tx.Exec(`INSERT INTO edges(id, up, down, hash, type) VALUES (?, ?, ?, ?, ?)`, edge.ID, edge.Up, edge.Down, 0, edge.Type)"
 //@   assert [C05] new-edge-closes-no-cycle: !reachU(sdb, parentID, nodeID) at "tx.Exec(`INSERT INTO edges(id, up, down, hash, type) VALUES (?, ?, ?, ?, ?)`, edge.ID, edge.Up, edge.Down, 0, edge.Type)"
 //@   havoc state(sdb) at "tx.Exec(`INSERT INTO edges(id, up, down, hash, type) VALUES (?, ?, ?, ?, ?)`, edge.ID, edge.Up, edge.Down, 0, edge.Type)"
 //@   assume edge-row-inserted: forall d string, u string :: isEdge(sdb, d, u) == (before(isEdge(sdb, d, u)) || (d == nodeID && u == parentID)) at "tx.Exec(`INSERT INTO edges(id, up, down, hash, type) VALUES (?, ?, ?, ?, ?)`, edge.ID, edge.Up, edge.Down, 0, edge.Type)"
@@ -410,6 +410,7 @@ package store
 //@     invariant -1 <= rangeindex && rangeindex < len(points) || rangeindex == -1
 //@     invariant txOpen(tx) && txDb(tx) == sdb.db && openTxs(sdb.db) == old(openTxs(sdb.db)) + 1 && commits(sdb.db) == old(commits(sdb.db))
 //@     invariant sinceLoop(writePoints) && sinceLoop(writePointIDs) && len(writePoints) == len(writePointIDs) && len(dbPoints) == len(dbPointIDs)
+//@     invariant nodeType == "" || (exists k int :: 0 <= k && k <= rangeindex && points[k].Type == "nodeType" && points[k].Text == nodeType)
 //@     modifies writePoints, writePointIDs
 //@     decreases len(points) - rangeindex
 //@   loop 4:
